@@ -315,7 +315,15 @@ def run(ctx):
     if b:
         ps = [p for p in ru.all_paths(ctx, "C16-b", b) if p.end == "return"]
         ok = len(ps) == 1 and ps[0].ret[0] == "call" and ps[0].ret[1] == S + "::new"
-        if ok:
+        if not ok and ps and all(p.ret is not None and p.ret[0] == "call" and p.ret[1] == S + "::new" and len(p.ret[2]) == 3 for p in ps):
+            # the bound written as a branch (`if wanted < largest { wanted } else { largest }`): the value is decided by the evaluation
+            # over boundary values below; here only that every path keeps direction and initiator
+            for p in ps:
+                a0, a1, a2 = p.ret[2]
+                ctx.check(a1[:3] == ("call", S + "::dir", (("param", 1, ()),)) and a2[:3] == ("call", S + "::initiator", (("param", 1, ()),)),
+                          "C16-b", b.key, "direction and initiator preserved",
+                          "new(.., %s, %s): expected self.dir(), self.initiator()" % (pa.vfmt(a1), pa.vfmt(a2)), "")
+        elif ok:
             a0, a1, a2 = ps[0].ret[2]
             idx_ok = (a0[0] == "call" and a0[1].endswith("::min") and len(a0[2]) == 2)
             sat = cap = None
@@ -388,8 +396,7 @@ def run(ctx):
                   "stream id composition and accessors disagree: %s" % bad[:3], "28 ids")
         aps = [p for p in ru.all_paths(ctx, "C16-b", addb) if p.end == "return"]
         bad = []
-        if len(aps) == 1 and aps[0].ret[0] == "call":
-            newidx = aps[0].ret[2][0]
+        if aps and all(p.ret is not None and p.ret[0] == "call" and p.ret[1] == S + "::new" and p.ret[2] for p in aps):
             for index in (0, 1, top - 2, top - 1, top):
                 for n in (0, 1, 2, 3, (1 << 32), (1 << 64) - 1):
                     def sub(v, index=index, n=n):
@@ -398,9 +405,10 @@ def run(ctx):
                         if v == ("param", 2, ()):
                             return n
                         return None
-                    got = expr.fold(newidx, consts, sub)
-                    if got != min(index + n, top):
-                        bad.append((index, n, got))
+                    live = expr.decide(aps, consts, sub) if len(aps) > 1 else aps
+                    got = {expr.fold(p.ret[2][0], consts, sub) for p in live}
+                    if got != {min(index + n, top)}:
+                        bad.append((index, n, sorted(got, key=str)))
         else:
             bad.append("shape")
         ctx.check(not bad, "C16-b", addb.key, "id + n saturates at the largest index of the same kind (boundary values)",
